@@ -118,7 +118,7 @@ func kdBlankSA(st suite, grp int) *security.IKESAKey {
 }
 
 func kdDerive(sa *security.IKESAKey, nonce, secret []byte, spiI, spiR uint64) callRes {
-	n, s := exact(nonce), exact(secret)
+	n, s := argBuf("ikekeys.nonce", nonce), argBuf("ikekeys.secret", secret)
 	r := guard(func() (string, error) {
 		if err := sa.GenerateKeyForIKESA(n, s, spiI, spiR); err != nil {
 			return "", err
@@ -512,9 +512,12 @@ func dhKeptChanged() (what, was, now string) {
 	return "", "", ""
 }
 
+// the caller's number objects, reused in place from call to call
+var dhArgX, dhArgY = new(big.Int), new(big.Int)
+
 func kdGoPub(grp int, xb []byte) callRes {
 	t := dh.StrToType(dhNames[grp])
-	x := new(big.Int).SetBytes(xb)
+	x := dhArgX.SetBytes(xb)
 	return guard(func() (string, error) {
 		b := t.GetPublicValue(x)
 		dhKeep(b, fmt.Sprintf("dhpub %d %s", grp, hx(xb)))
@@ -524,7 +527,7 @@ func kdGoPub(grp int, xb []byte) callRes {
 
 func kdGoShared(grp int, xb, yb []byte) callRes {
 	t := dh.StrToType(dhNames[grp])
-	x, y := new(big.Int).SetBytes(xb), new(big.Int).SetBytes(yb)
+	x, y := dhArgX.SetBytes(xb), dhArgY.SetBytes(yb)
 	return guard(func() (string, error) {
 		b := t.GetSharedKey(x, y)
 		dhKeep(b, fmt.Sprintf("dhshared %d %s %s", grp, hx(xb), hx(yb)))
@@ -746,7 +749,7 @@ func kdChildStr(ck *security.ChildSAKey) string {
 func kdChildDerive(ck *security.ChildSAKey, sa *security.IKESAKey, nonce []byte) callRes {
 	var n []byte
 	if nonce != nil {
-		n = exact(nonce)
+		n = argBuf("childkeys.nonce", nonce)
 	}
 	r := guard(func() (string, error) {
 		if err := ck.GenerateKeyForChildSA(sa, n); err != nil {
@@ -754,10 +757,7 @@ func kdChildDerive(ck *security.ChildSAKey, sa *security.IKESAKey, nonce []byte)
 		}
 		return kdChildStr(ck), nil
 	})
-	for i := range n {
-		n[i] = 0xC3
-	}
-	return r
+	return r // the nonce buffer is refilled in place by the next derivation (argBuf)
 }
 
 func kdChildLine(op string, p int, skd []byte, e, i int, nonce []byte) string {
@@ -911,6 +911,7 @@ func (c *Ctx) c08History(g *Gen, corr *[]corrCase) {
 	s := c.suite("child-derivation-history", "oracle",
 		fmt.Sprintf("per PRF one long-lived IKESAKey object: %d Child SA derivations (random transform choice and nonce each) interleaved with EncodeEncrypt, DecodeDecrypt of a peer's message, DecodeDecrypt of garbage and foreign writes into Prf_d; every derivation must equal (a) the derivation on a freshly constructed copy of the SA and (b) the stdlib reference; the last 3 ChildSAKey objects are re-inspected after each later derivation; plus childkeys lines with k = 1..6 earlier derivations; non-trivial = derivation number >= 2; distinct by (history, position, inputs)", c.n(64, 1000)))
 	n := c.n(64, 1000)
+	prevNonceLen, prevE, prevI := 0, 0, 0
 	for p := 0; p < 3; p++ {
 		st := suite{g.intn(3), g.intn(3), p}
 		k := g.saKeys(st)
@@ -934,6 +935,13 @@ func (c *Ctx) c08History(g *Gen, corr *[]corrCase) {
 			}
 			e, i := g.intn(3), g.intn(4)-1
 			nonce := g.bytes(g.pick(0, g.kdLen(), g.kdLen()))
+			if d >= 2 && g.chance(0.4) { // the same nonce length (and sometimes the same transforms) as the derivation before
+				nonce = g.keyBytesRandom(prevNonceLen)
+				if g.chance(0.5) {
+					e, i = prevE, prevI
+				}
+			}
+			prevNonceLen, prevE, prevI = len(nonce), e, i
 			line := fmt.Sprintf("history prf=%d #%d %s", p, d, kdChildLine("childkeys", p, k.d, e, i, nonce))
 			setCase(line)
 			s.add(line, d >= 2, fmt.Sprintf("prf:%d", p), fmt.Sprintf("integ:%d", i), fmt.Sprintf("position:%s", kdBucket(d)))
@@ -1399,10 +1407,10 @@ func kdPrfPrime(key, s []byte, n int) []byte {
 func kdAkaGo(ik, ck, id []byte) callRes {
 	var a, b []byte // nil stays nil
 	if ik != nil {
-		a = exact(ik)
+		a = argBuf("akaprf.ik", ik)
 	}
 	if ck != nil {
-		b = exact(ck)
+		b = argBuf("akaprf.ck", ck)
 	}
 	r := guard(func() (string, error) {
 		ke, ka, kr, msk, emsk, err := eap.EapAkaPrimePRF(a, b, string(id))
@@ -1476,7 +1484,11 @@ func propC16(c *Ctx) {
 					ik, ck, derived = append(ik, ck[:k]...), ck[k:], "CK' head moved to IK'"
 				}
 			case 4:
-				derived = "same arguments again"
+				if g.chance(0.5) {
+					derived = "same arguments again"
+				} else {
+					ik, ck, derived = g.keyBytesRandom(len(ik)), g.keyBytesRandom(len(ck)), "new keys of the same sizes, same identity"
+				}
 			default:
 				if len(id) > 0 {
 					id[len(id)-1] ^= 1
